@@ -3,14 +3,16 @@ C17 — The recommendation report shows exactly the filter's result.
 
 Theorems about the STRUCTURED report of Model/Report.lean (`body`, `summary`, `stdoutSelection`),
 for every input (assessed list, hidden sets, records, strategies). The harness parses the real
-Markdown back into this structure. Last section: the TEXT of the Location cell (Model/ReportCell.lean).
+Markdown back into this structure. Then the TEXT of the Location cell (Model/ReportCell.lean); last section: the TEXT of the
+whole body, line by line (Model/ReportText.lean), and the proof that the structure is read back from it.
 -/
 import Paroxy.Proofs.Report
 import Paroxy.Proofs.ReportOrder
 import Paroxy.Proofs.Recommend
 import Paroxy.Proofs.ReportCell
+import Paroxy.Proofs.ReportText
 namespace Paroxy.Props.C17
-open Paroxy Paroxy.Filter Paroxy.Costs Paroxy.Report Paroxy.ReportCell
+open Paroxy Paroxy.Filter Paroxy.Costs Paroxy.Report Paroxy.ReportCell Paroxy.ReportText
 
 /-- **Membership.** The report lists each assessed (= selected), non-hidden program exactly once
 and no other program: the listed `(cost, path)` pairs are a permutation of the visible ones. -/
@@ -356,5 +358,182 @@ example : renderCell 8 [(12345678901, 12345678901)] = "<details><summary>12345</
     renderCell 8 [(123, 45678901)] = "<details><summary>123-</summary>45678901</details>".toList ∧
     unwrap (wrapContents 8 3 (joinSpans [(12345678901, 12345678901)])) ≠ joinSpans [(12345678901, 12345678901)] ∧
     parseCell (renderCell 8 [(12345678901, 12345678901)]) = some [(12345678901, 12345678901)] := by decide +kernel
+
+/-! ### The text of the body (round 10, B5)
+
+`renderBody showCost rowCost width b` is the list of the lines `get_markdown` writes for the structured
+body `b` (heading lines with their counts, title lines with path and cost, table header, one row line
+per row with cost, taxon in backquotes and Location cell, rule), the source listings excepted.
+Hygiene, all decidable and evaluated by the harness (through the driver) on every generated database:
+`okBody` — taxon names are made of valid code points other than backquote and newline, paths of valid
+code points other than newline, spans are non-negative — and `costsOK` — the text printed for each cost
+of the body is made of digits `.` `e` `-` `+` and is read back by `readCost` as that cost. -/
+
+/-- **The text determines the report.** The structured body — which programs, in which order, under which
+heading, the count announced by each heading, each program's path and cost, each row's taxon, cost and
+spans (`_imported_` for none) — is read back from the lines by `parseBody`. -/
+theorem C17_text_roundtrip (showCost : Rat → Str) (rowCost : Codes → Rat → Str) (readCost : Str → Option Rat)
+    (width : Nat) (hw : 0 < width) (b : List (Bucket × List Section))
+    (hb : okBody b = true) (hc : costsOK showCost rowCost readCost b = true) :
+    parseBody readCost (renderBody showCost rowCost width b) = some b :=
+  parse_render_body showCost rowCost readCost width hw b hb hc
+
+/-- … down to the characters: no line the model writes contains a newline, so the body TEXT —
+`"\n".join(lines)` — splits back (`split("\n")`) into those lines, and the structured body is read back from the
+text itself. -/
+theorem C17_text_roundtrip_string (showCost : Rat → Str) (rowCost : Codes → Rat → Str) (readCost : Str → Option Rat)
+    (width : Nat) (hw : 0 < width) (b : List (Bucket × List Section))
+    (hb : okBody b = true) (hc : costsOK showCost rowCost readCost b = true) :
+    (∀ l ∈ renderBody showCost rowCost width b, '\n' ∉ l) ∧
+      parseBody readCost (splitLines (joinLines (renderBody showCost rowCost width b))) = some b :=
+  ⟨renderBody_no_nl showCost rowCost readCost width hw b hb hc,
+    parse_render_text showCost rowCost readCost width hw b hb hc⟩
+
+/-- **The same with the strict reader**, which also checks that the lines follow the grammar of the body
+(`bucket = blank heading section*`, `section = blank title blank header rule row* blank ---`): the model writes
+texts of that grammar, as lines and as one text. This is the reader the driver runs on the real reports. -/
+theorem C17_text_roundtrip_strict (showCost : Rat → Str) (rowCost : Codes → Rat → Str) (readCost : Str → Option Rat)
+    (width : Nat) (hw : 0 < width) (b : List (Bucket × List Section))
+    (hb : okBody b = true) (hc : costsOK showCost rowCost readCost b = true) :
+    parseBodyStrict readCost (renderBody showCost rowCost width b) = some b ∧
+      parseBodyStrict readCost (splitLines (joinLines (renderBody showCost rowCost width b))) = some b :=
+  ⟨parse_render_body_strict showCost rowCost readCost width hw b hb hc,
+    parse_render_text_strict showCost rowCost readCost width hw b hb hc⟩
+
+/-- What the strict reader returns is what `parseBody` returns (so `C17_text_reader_counts` and
+`C17_text_reader_sound` hold for it). -/
+theorem C17_text_strict_le (readCost : Str → Option Rat) (lines : List Str) (b : List (Bucket × List Section))
+    (h : parseBodyStrict readCost lines = some b) : parseBody readCost lines = some b :=
+  parseBodyStrict_le readCost lines b h
+
+/-- Two reports with the same body text have the same structured body. -/
+theorem C17_text_injective (showCost : Rat → Str) (rowCost : Codes → Rat → Str) (readCost : Str → Option Rat)
+    (width : Nat) (hw : 0 < width) (b b' : List (Bucket × List Section))
+    (hb : okBody b = true) (hc : costsOK showCost rowCost readCost b = true)
+    (hb' : okBody b' = true) (hc' : costsOK showCost rowCost readCost b' = true)
+    (h : renderBody showCost rowCost width b = renderBody showCost rowCost width b') : b = b' := by
+  have h1 := C17_text_roundtrip showCost rowCost readCost width hw b hb hc
+  have h2 := C17_text_roundtrip showCost rowCost readCost width hw b' hb' hc'
+  rw [h, h2] at h1
+  exact (Option.some.inj h1).symm
+
+/-- The hygiene of the body follows from the hygiene of the DATABASE: every path shown is the path of a
+record, every row a (taxon, spans) entry of that record. -/
+theorem C17_text_okBody_of_db (i : Input) (b : List (Bucket × List Section)) (h : body i = some b)
+    (hp : okPrograms i.programs = true) : okBody b = true := by
+  simp only [okBody, List.all_eq_true]
+  intro g hg s hs
+  obtain ⟨rec, hrec, hrows⟩ := C17_rows i b h g hg s hs
+  have hmem := dictGet?_mem hrec
+  simp only [okPrograms, List.all_eq_true, Bool.and_eq_true] at hp
+  obtain ⟨h1, h2⟩ := hp _ hmem
+  simp only [okSection, okRow, Bool.and_eq_true, List.all_eq_true]
+  refine ⟨h1, fun r hr => ?_⟩
+  have := h2 _ ((hrows r).mp hr).1
+  simpa [Bool.and_eq_true, List.all_eq_true] using this
+
+/-- **Membership, on the text.** What is read from the text of the report of `i` lists each assessed,
+non-hidden program exactly once and no other. -/
+theorem C17_text_membership (i : Input) (b : List (Bucket × List Section)) (h : body i = some b)
+    (showCost : Rat → Str) (rowCost : Codes → Rat → Str) (readCost : Str → Option Rat) (width : Nat) (hw : 0 < width)
+    (hb : okBody b = true) (hc : costsOK showCost rowCost readCost b = true)
+    (b' : List (Bucket × List Section)) (hp : parseBody readCost (renderBody showCost rowCost width b) = some b') :
+    (b'.flatMap fun g => g.2.map fun s => (s.cost, s.path)).Perm
+      (i.assessed.filter fun cp => !i.hiddenPrograms.contains cp.2) := by
+  rw [C17_text_roundtrip showCost rowCost readCost width hw b hb hc] at hp
+  cases hp
+  exact C17_membership i b h
+
+/-- **Rows, on the text.** The rows read under a program title are exactly the non-hidden taxa of its
+record, with the spans of the record and the assessed taxon cost. -/
+theorem C17_text_rows (i : Input) (b : List (Bucket × List Section)) (h : body i = some b)
+    (showCost : Rat → Str) (rowCost : Codes → Rat → Str) (readCost : Str → Option Rat) (width : Nat) (hw : 0 < width)
+    (hb : okBody b = true) (hc : costsOK showCost rowCost readCost b = true)
+    (b' : List (Bucket × List Section)) (hp : parseBody readCost (renderBody showCost rowCost width b) = some b')
+    (g : Bucket × List Section) (hgm : g ∈ b') (s : Section) (hs : s ∈ g.2) :
+    ∃ rec, dictGet? i.programs s.path = some rec ∧ ∀ r : Row, r ∈ s.rows ↔
+      (r.taxon, r.spans) ∈ rec ∧ r.taxon ∉ i.hiddenTaxa ∧ r.cost = taxonCost i.strat i.knowledge r.taxon := by
+  rw [C17_text_roundtrip showCost rowCost readCost width hw b hb hc] at hp
+  cases hp
+  exact C17_rows i b h g hgm s hs
+
+/-- **Heading, interval and count, on the text.** Each group read from the text comes with its heading
+line in the text, announcing exactly the number of programs read under it; with `by_cost_bucket` the
+heading is `cost_bucket` of the cost of each of them (whose interval contains it: `C17_bucket_contains`). -/
+theorem C17_text_bucket_count (i : Input) (b : List (Bucket × List Section)) (h : body i = some b)
+    (showCost : Rat → Str) (rowCost : Codes → Rat → Str) (readCost : Str → Option Rat) (width : Nat) (hw : 0 < width)
+    (hb : okBody b = true) (hc : costsOK showCost rowCost readCost b = true)
+    (b' : List (Bucket × List Section)) (hp : parseBody readCost (renderBody showCost rowCost width b) = some b')
+    (g : Bucket × List Section) (hgm : g ∈ b') :
+    headingLine g.1 g.2.length ∈ renderBody showCost rowCost width b ∧
+      (i.grouping = true → ∀ s ∈ g.2, g.1 = costBucket s.cost) := by
+  rw [C17_text_roundtrip showCost rowCost readCost width hw b hb hc] at hp
+  cases hp
+  refine ⟨?_, fun hgr s hs => C17_bucket i hgr b h g hgm s hs⟩
+  simp only [renderBody, List.mem_flatMap]
+  exact ⟨g, hgm, by simp [renderBucket]⟩
+
+/-- **The reader never invents a count**, whatever the lines (rendered by the model or not): every group
+of a text that reads back comes from a heading line of that text whose announced count is the number of
+programs read under it. -/
+theorem C17_text_reader_counts (readCost : Str → Option Rat) (lines : List Str) (b : List (Bucket × List Section))
+    (h : parseBody readCost lines = some b) (g : Bucket × List Section) (hg : g ∈ b) :
+    ∃ l ∈ lines, classify readCost l = some (.heading g.1 g.2.length) :=
+  parseBody_counts readCost lines b h g hg
+
+/-- **The reader invents nothing**, whatever the lines: each group of a text that reads back comes from a heading
+line of that text (with the right count), each of its programs from a title line of the text showing that path
+and that cost, each row of a program from a row line of the text showing that taxon, cost and spans. So when the
+harness finds the filter's result by reading a REAL report with `parseBody`, every item of it is written in the
+report. -/
+theorem C17_text_reader_sound (readCost : Str → Option Rat) (lines : List Str) (b : List (Bucket × List Section))
+    (h : parseBody readCost lines = some b) (g : Bucket × List Section) (hg : g ∈ b) :
+    (∃ l ∈ lines, classify readCost l = some (.heading g.1 g.2.length)) ∧
+      ∀ s ∈ g.2, (∃ l ∈ lines, classify readCost l = some (.title s.path s.cost)) ∧
+        ∀ r ∈ s.rows, ∃ l ∈ lines, classify readCost l = some (.row r) :=
+  parseBody_sound readCost lines b h g hg
+
+-- Non-vacuity: a report of three programs under two headings (zeno costs). `b.py` has a hidden taxon `h`
+-- (absent from its rows, present in its cost 1.375 = 5/4 + 1/8) and an imported taxon (no span: `_imported_`).
+def exampleBody : List (Bucket × List Section) :=
+  [(.q3, [⟨codesOf "a.py", 1 / 2, [⟨codesOf "x", 1 / 2, [(1, 1), (3, 4)]⟩, ⟨codesOf "meta/q", 0, [(1, 4)]⟩]⟩,
+          ⟨codesOf "d/c.py", 3 / 4, [⟨codesOf "x/y", 3 / 4, [(2, 2)]⟩]⟩]),
+   (.pow 1, [⟨codesOf "b.py", 11 / 8, [⟨codesOf "x/y", 3 / 4, [(1, 2), (5, 5)]⟩, ⟨codesOf "z", 1 / 2, []⟩]⟩])]
+
+example : okBody exampleBody = true ∧ costsOK showFloat (rowCostText true) readDecimal exampleBody = true := by
+  decide +kernel
+
+example : (renderBody showFloat (rowCostText true) 30 exampleBody).map String.ofList =
+    ["", "## 2 programs of learning cost in [0.5, 1[",
+     "", "### Program a.py (learning cost 0.5)", "", "| Cost  | Taxon | Location |", "|----|----|----|",
+     "| 0.5 | `x` | 1, 3-4 |", "| 0 | `meta/q` | 1-4 |", "", "---",
+     "", "### Program d/c.py (learning cost 0.75)", "", "| Cost  | Taxon | Location |", "|----|----|----|",
+     "| 0.75 | `x/y` | 2 |", "", "---",
+     "", "## 1 program of learning cost in [1, 2[",
+     "", "### Program b.py (learning cost 1.375)", "", "| Cost  | Taxon | Location |", "|----|----|----|",
+     "| 0.75 | `x/y` | 1-2, 5 |", "| 0.5 | `z` | _imported_ |", "", "---"] := by decide +kernel
+
+example : okPrograms (exampleInput true).programs = true := by decide +kernel
+
+example : (splitLines (joinLines (renderBody showFloat (rowCostText true) 30 exampleBody))).length = 30 := by
+  decide +kernel
+
+example : parseBody readDecimal (renderBody showFloat (rowCostText true) 30 exampleBody) = some exampleBody :=
+  C17_text_roundtrip _ _ _ 30 (by decide) _ (by decide +kernel) (by decide +kernel)
+
+-- A heading announcing a wrong count, or a row above every title, is unreadable.
+example : parseBody readDecimal (["", "## 2 programs of learning cost 0", "", "### Program a.py (learning cost 0.0)",
+    "", "---"].map String.toList) = none := by decide +kernel
+example : (parseBody readDecimal (["", "## 1 program of learning cost 0", "", "### Program a.py (learning cost 0.0)",
+    "", "---"].map String.toList)).isSome = true := by decide +kernel
+example : parseBody readDecimal (["| 0.5 | `z` | _imported_ |"].map String.toList) = none := by decide +kernel
+-- A table rule before the table header: read by `parseBody`, refused by the strict reader; in order: accepted.
+example : (parseBody readDecimal (["", "## 1 program of learning cost 0", "", "### Program a.py (learning cost 0.0)", "",
+      "|----|----|----|", "| Cost  | Taxon | Location |", "", "---"].map String.toList)).isSome = true ∧
+    parseBodyStrict readDecimal (["", "## 1 program of learning cost 0", "", "### Program a.py (learning cost 0.0)", "",
+      "|----|----|----|", "| Cost  | Taxon | Location |", "", "---"].map String.toList) = none ∧
+    (parseBodyStrict readDecimal (["", "## 1 program of learning cost 0", "", "### Program a.py (learning cost 0.0)", "",
+      "| Cost  | Taxon | Location |", "|----|----|----|", "", "---"].map String.toList)).isSome = true := by
+  decide +kernel
 
 end Paroxy.Props.C17
